@@ -127,7 +127,7 @@ def _patches():
                        (T, 'numpy', env.Proxy(numpy, dict(fromiter=_fromiter))))
 
 
-def body_segments(ctx, ncells_hit, nkinds=5):
+def body_segments(ctx, ncells_hit, nkinds=5, extra='t'):
     _cfunits_standin()
     import emsarray.transect as T
     if not ctx.symbolic:
@@ -138,7 +138,8 @@ def body_segments(ctx, ncells_hit, nkinds=5):
     vals = numpy.empty((nk,) + shape + (2,), dtype=object)
     for k, idx in enumerate(numpy.ndindex(*vals.shape)):
         vals[idx] = ctx.real(f'v{k}', nan=True)
-    ds = builders.cf1d(2, 3, data_vars={'temp': (('k', 'y', 'x', 't'), vals)})
+    # (extra: the name of the variable's other dimension - 'index' collides with the name ravel gives its linear dimension)
+    ds = builders.cf1d(2, 3, data_vars={'temp': (('k', 'y', 'x', extra), vals)})
     ds = ds.assign_coords(zc=(('k',), numpy.array([1.0, 3.0]), {'positive': 'down', 'long_name': 'depth', 'units': 'm'}))
     cv = ds.ems
     N = 6
@@ -228,7 +229,7 @@ def body_segments(ctx, ncells_hit, nkinds=5):
     db = td['distance_bounds'].values if len(segs) else numpy.zeros((0, 2))
     if len(segs):
         prepared = tr.prepare_data_array_for_transect(ds['temp'])
-        ctx.check(prepared.dims[-2:] == ('k', prepared.dims[-1]) and prepared.dims[0] == 't', 'depth and index are the last two dimensions, others first')
+        ctx.check(prepared.dims[-2:] == ('k', prepared.dims[-1]) and prepared.dims[0] == extra, 'depth and index are the last two dimensions, others first')
         pv = prepared.values
         oks = []
         for si, s in enumerate(segs):
@@ -336,6 +337,8 @@ def cases(tier):
     for n, kinds in ([(0, 5), (1, 2)] if q else [(0, 5), (1, 3), (2, 2)]):
         yield Case(f'segments:cells{n + 1}:kinds{kinds}', body_segments, dict(ncells_hit=n, nkinds=kinds), patches=_patches,
                    max_paths=400000, split=64, validate=False)
+    yield Case('segments:cells1:kinds3:extra-dimension-called-index', body_segments, dict(ncells_hit=0, nkinds=3, extra='index'),
+               patches=_patches, max_paths=400000, split=64, validate=False)
     yield Case('real-geometry', body_real, max_paths=5, validate=True)
 
 
